@@ -106,9 +106,6 @@ Proof.
   inversion F as [|? ? Hl Hr]; subst. cbn [concat]. rewrite (split_nl_line l Hl), (IH Hr). reflexivity.
 Qed.
 
-Definition StreamOk (ths : nat -> list bytes) (s : bytes) : Prop :=
-  exists sigma, MergeOf ths sigma /\ s = concat sigma.
-
 Theorem check_stream_sound ths s : check_stream ths s = true -> StreamOk (lths ths) s.
 Proof.
   unfold check_stream. destruct (split_nl [] s) as [ls rest] eqn:E. intros H.
